@@ -1,4 +1,5 @@
 """Replay of JsonSer.tla: value shapes through real JSON text (C18) and tag classes through from_json (C19)."""
+import contextlib
 import datetime
 import json
 import random
@@ -13,7 +14,7 @@ from harness.models import jsonmodel2
 
 INTS = [0, -1, 1, 2 ** 31, -(2 ** 63), 2 ** 63, 2 ** 100, 10 ** 30]
 FLOATS = [0.0, -0.0, 1e308, -1e308, 5e-324, 2.0 ** -1074, 0.1, 1.0, float("inf"), float("-inf"), 3.141592653589793, 1e-7, 123456789.123456789]
-STRS = ["", "a", "é", "\u0000", "\U0001F600", "日本語", "__json_type__", "json.dumps", "a.b", "{\"x\": 1}", "\\", "\"", "\n\t", " ", "퟿", " "]
+STRS = ["NaN", "Infinity", "-Infinity", "nan", "null", "true", "None", "", "a", "é", "\u0000", "\U0001F600", "日本語", "__json_type__", "json.dumps", "a.b", "{\"x\": 1}", "\\", "\"", "\n\t", " ", "퟿", " "]
 CLS = {"A": A, "B": B, "C": C, "A2": jsonmodel2.A, "It": jsonmodel.It}
 
 
@@ -39,6 +40,9 @@ def concretise(shape, rnd):
         return datetime.datetime(rnd.randint(1, 9999), rnd.randint(1, 12), rnd.randint(1, 28), rnd.randint(0, 23), rnd.randint(0, 59), rnd.randint(0, 59), rnd.randint(0, 999999))
     if k == "list":
         return [concretise(s, rnd) for s in shape[1]]
+    if k == "dup":
+        x = concretise(shape[1], rnd)
+        return [x, x] if rnd.random() < 0.5 else [x, [], x]
     if k == "obj":
         return CLS[shape[1]](concretise(shape[2], rnd), concretise(shape[3], rnd))
     raise ValueError(shape)
@@ -97,11 +101,18 @@ TAGS = {
     "attr_function": ["json.dumps", "harness.models.jsonmodel.some_function", "os.getcwd"],
     "attr_module": ["os.path", "harness.models", "json.decoder"],
     "attr_typevar": ["typing_extensions.T", "typing.AnyStr", "typing.List"],
+    "attr_constant": ["harness.models.jsonmodel.SOME_TEXT", "harness.models.jsonmodel.SOME_TUPLE", "string.ascii_letters", "sys.maxsize", "math.pi"],
+    "attr_abstract_base": ["krrood.adapters.json_serializer.SubclassJSONSerializer"],
     "attr_plain_class": ["harness.models.jsonmodel.Plain", "decimal.Decimal", "builtins.int"],
     "attr_subclass_of_registered": ["harness.models.jsonmodel.MyUUID", "harness.models.jsonmodel.Stamp"],
     "attr_serializable_class": ["harness.models.jsonmodel.A", "harness.models.jsonmodel.C"],
     "attr_registered_class": ["uuid.UUID", "datetime.date"],
 }
+
+
+@contextlib.contextmanager
+def _scope():
+    yield
 
 
 def handle(case):
@@ -128,18 +139,27 @@ def handle(case):
     for good in ("harness.models.jsonmodel.A", "harness.models.jsonmodel.C", "uuid.UUID", "datetime.date"):
         from_json({JSON_TYPE_NAME: good, "x": 1, "y": 2, "value": "12345678-1234-5678-1234-567812345678", "iso": "2020-01-02"})
     res = []
-    for t in TAGS[case["tag"]]:
+    for t, ctxt in [(t, c) for t in TAGS[case["tag"]] for c in ("plain", "contextmanager", "exitstack")]:
         doc = {"x": 1, "y": 2, "value": "12345678-1234-5678-1234-567812345678", "iso": "2020-01-02"}
         if t != "<absent>":
             doc[JSON_TYPE_NAME] = t
         doc = json.loads(json.dumps(doc))      # the tag really went through JSON text
         try:
-            r = from_json(doc)
-            res.append({"tag": t, "outcome": "instance", "type": type(r).__module__ + "." + type(r).__name__})
+            # the error must travel like any exception: out of a generator-based context manager, out of an ExitStack
+            if ctxt == "contextmanager":
+                with _scope():
+                    r = from_json(doc)
+            elif ctxt == "exitstack":
+                with contextlib.ExitStack() as st:
+                    st.enter_context(_scope())
+                    r = from_json(doc)
+            else:
+                r = from_json(doc)
+            res.append({"tag": t, "context": ctxt, "outcome": "instance", "type": type(r).__module__ + "." + type(r).__name__})
         except JSONSerializationError as ex:
-            res.append({"tag": t, "outcome": type(ex).__name__, "message": str(ex)[:200]})
+            res.append({"tag": t, "context": ctxt, "outcome": type(ex).__name__, "message": str(ex)[:200]})
         except BaseException as ex:
-            res.append({"tag": t, "outcome": "ESCAPED:" + type(ex).__name__, "message": str(ex)[:200]})
+            res.append({"tag": t, "context": ctxt, "outcome": "ESCAPED:" + type(ex).__name__, "message": str(ex)[:200]})
     return {"tags": res}
 
 
